@@ -219,17 +219,25 @@ class Log:
         return "c05_history_case %s %s" % (fq.lst(self.events), fq.nlist(self.outs))
 
 
+def hist_dir(ctx, name):
+    """plain scratch directory (how a cache path is spelled is varied elsewhere; it is not what this scenario is about)"""
+    d = os.path.join(ctx.workdir, "history", name)
+    shutil.rmtree(d, ignore_errors=True)
+    os.makedirs(os.path.dirname(d), exist_ok=True)
+    return d
+
+
 def run_mode(ctx, entry, cfg, cats, mode, w, seed):
     from props import c05 as base
     if mode == "w1":
-        return fr.measure(entry, cfg, cats, 1)
+        return fr.outcome(entry, cfg, cats, 1)
     if mode == "sim":
         with base.patched(simpool.Schedule("random", seed=seed)) as mp:
-            out = fr.measure(entry, cfg, cats, w)
+            out = fr.outcome(entry, cfg, cats, w)
         if mp.pool_sizes:
             ctx.bump("history/simulated-pool-used")
         return out
-    return fr.measure(entry, cfg, cats, w)          # real worker processes
+    return fr.outcome(entry, cfg, cats, w)          # real worker processes
 
 
 def plan_round(rng, thorough):
@@ -267,7 +275,7 @@ def plan_round(rng, thorough):
         elif r < p_use + 0.55 * (1 - p_use):
             steps.append(dict(step="reopen-catalogs", data=rng.choice(["A", "B"])))
         elif r < p_use + 0.85 * (1 - p_use):
-            steps.append(dict(step="pads", n=rng.choice([0, 0, 1, 3, 10, 50, 400]), kind=rng.randrange(4)))     # n = 0: drop one
+            steps.append(dict(step="pads", n=rng.choice([0, 0, 1, 2, 3, 5, 10, 50, 400]), kind=rng.randrange(7)))     # n = 0: drop one
         else:
             steps.append(dict(step="gc"))
     if rng.random() < 0.75:
@@ -282,7 +290,15 @@ def plan_round(rng, thorough):
     return plan
 
 
-PAD_KINDS = (object, dict, list, lambda: [0.0] * 7)
+class Thing:
+    """an unrelated small object a program may create between two configurations"""
+
+
+class SlotThing:
+    __slots__ = ("a", "b", "c", "d")
+
+
+PAD_KINDS = (object, dict, list, lambda: [0.0] * 7, Thing, Thing, SlotThing)
 
 
 def describe(plan, k):
@@ -298,18 +314,23 @@ def one_round(ctx, rnd, server, terms, metas):
     thorough = not ctx.quick()
     plan = plan_round(ctx.rng, thorough)
     npatch, generic = plan["npatch"], plan["generic"]
-    sets = {"A": list(base.make_cats(ctx, plan["seed_a"], npatch, suffix="_hA%d" % rnd, generic=generic)),
-            "B": list(base.make_cats(ctx, plan["seed_b"], plan["npatch_b"], suffix="_hB%d" % rnd, generic=generic))}
+    sets = {"A": list(base.make_cats(ctx, plan["seed_a"], npatch, suffix="_hA%d" % rnd, generic=generic, dirfn=hist_dir)),
+            "B": list(base.make_cats(ctx, plan["seed_b"], plan["npatch_b"], suffix="_hB%d" % rnd, generic=generic, dirfn=hist_dir))}
     all_dirs = [str(c.cache_directory) for cs in sets.values() for c in cs]
-    copies = []
-    for k, c in enumerate(sets["A"]):           # the reference process works on its own copies of A's caches
-        d = impl.fresh_dir(ctx, "hist_fresh_%d_%d" % (rnd, k))
-        shutil.copytree(str(c.cache_directory), d)
-        copies.append(d)
+    copies = {"A": [], "B": []}
+    for ds in ("A", "B"):
+        for k, c in enumerate(sets[ds]):        # the reference process works on its own copies of the caches
+            d = hist_dir(ctx, "fresh_%d_%s%d" % (rnd, ds, k))
+            shutil.copytree(str(c.cache_directory), d)
+            copies[ds].append(d)
     rec_t = plan["under_test"]
     v_t, vkey_t = rec_t["value"], canon(rec_t["value"])
     cid = ("history", rnd)
-    server.ask(rnd, rec_t, copies, fr.ENTRIES)
+    # every measurement of the round - the steps of the history too - has its reference in a process without history
+    for k, st in enumerate(plan["steps"]):
+        if st["step"] == "use":
+            server.ask("%d.%d" % (rnd, k), st["rec"], copies[st["data"]], [st["entry"]])
+    server.ask("%d.t" % rnd, rec_t, copies["A"], fr.ENTRIES)
 
     log = Log()
     held, pads = [], []
@@ -319,7 +340,8 @@ def one_round(ctx, rnd, server, terms, metas):
             cfg = fr.make_config(st["rec"])
             log.alloc(cfg, st["vkey"])
             b, total = run_mode(ctx, st["entry"], cfg, tuple(sets[st["data"]]), st["mode"], st["workers"], st["seed"])
-            log.use(cfg, st["vkey"], st["entry"], st["data"], fr.digest(b), k)
+            st["digest"], st["total"], st["recycled"] = fr.digest(b), total, id(cfg) in log.dead
+            log.use(cfg, st["vkey"], st["entry"], st["data"], st["digest"], k)
             ctx.bump("history/step/use-%s/%s/%s" % (st["entry"], st["mode"], st["kind"]))
             del b
             if st["dispose"] == "now":
@@ -372,19 +394,45 @@ def one_round(ctx, rnd, server, terms, metas):
     del cfg, cfg_eq, c
     gc.collect()
 
-    try:
-        ans = server.get(rnd)
-    except Exception as e:
-        ans = dict(ok=False, error="%s: %s" % (type(e).__name__, e))
+    def answer(rid):
+        try:
+            return server.get(rid)
+        except Exception as e:
+            return dict(ok=False, error="%s: %s" % (type(e).__name__, e))
+    step_refs = {k: answer("%d.%d" % (rnd, k)) for k, st in enumerate(plan["steps"]) if st["step"] == "use"}
+    ans = answer("%d.t" % rnd)
     replay = dict(round=rnd, npatch=npatch, generic_weights=generic, under_test=rec_t, equal_object=plan["equal"], workers=w, order=plan["order"],
                   style=plan["style"], discarded_configurations=discarded, address_recycled=recycled,
-                  history=[{k: v for k, v in st.items() if k != "vkey"} for st in plan["steps"]])
+                  history=[{k: v for k, v in st.items() if k not in ("vkey", "digest")} for st in plan["steps"]])
     # results that earlier configurations of ANOTHER value gave for the same entry on data set A (evidence for "stale")
     vcls_t = log.vals.get(vkey_t)
     earlier = {}
     for (vc, a), (r, k) in log.first.items():
         if vc != vcls_t:
             earlier.setdefault(a, {})[r] = k
+    # ---- the steps of the history: each is a measurement after the history before it
+    ndisc = 0
+    for k, st in enumerate(plan["steps"]):
+        if st["step"] != "use":
+            continue
+        ref = step_refs[k]
+        if not ref.get("ok"):
+            ctx.disagree("fresh-process-reference", cid, dict(step=k, error=ref.get("error"), traceback=ref.get("traceback"), recipe=st["rec"]))
+        elif ref["result"][st["entry"]]["digest"] != st["digest"]:
+            entry = st["entry"]
+            a = log.args.get((entry, st["data"]))
+            vc = log.vals.get(st["vkey"])
+            r = log.res.get(st["digest"])
+            same = [k2 for (vc2, a2), (r2, k2) in log.first.items() if a2 == a and r2 == r and vc2 != vc and k2 < k]
+            note = "%s, after %d earlier configurations%s, differs from the same measurement in a process without history (%.6f against %.6f)%s" % (
+                describe(plan, k), ndisc, " (at the address of a discarded one)" if st["recycled"] else "", st["total"], ref["result"][entry]["total"],
+                "; bit-identical to what an earlier configuration of ANOTHER value gave (%s)" % describe(plan, same[0]) if same else "")
+            if st["mode"] == "w1":
+                ctx.fail("c05-%s-one-worker-differs-from-fresh-process-after-history" % entry, note, dict(replay, entry=entry, step=k), case=cid)
+            else:
+                ctx.fail("c05-%s-pool-differs-from-fresh-process-after-history:%s" % (entry, "simulated-pool" if st["mode"] == "sim" else "real-pool"),
+                         note, dict(replay, entry=entry, step=k), case=cid)
+        ndisc += 1
     if not ans.get("ok"):
         ctx.disagree("fresh-process-reference", cid, dict(error=ans.get("error"), traceback=ans.get("traceback"), under_test=rec_t))
     else:
@@ -392,7 +440,7 @@ def one_round(ctx, rnd, server, terms, metas):
         for entry in fr.ENTRIES:
             ref_dg, ref_total = fresh[entry]["digest"], fresh[entry]["total"]
             note = "after %d discarded configurations (%s)" % (
-                discarded, "the one under test lives at the address of a discarded one" if recycled else "its address was not used before")
+                discarded, "the one under test lives at the address of one of them" if recycled else "the one under test does not live at the address of one of them")
             w1 = got[("w1", entry)]
 
             def stale(dg):
@@ -435,7 +483,7 @@ def one_round(ctx, rnd, server, terms, metas):
     terms.append(log.term())
     metas.append((cid, dict(replay, events=len(log.events))))
     del pads[:]
-    for d in all_dirs + copies:
+    for d in all_dirs + copies["A"] + copies["B"]:
         shutil.rmtree(d, ignore_errors=True)
 
 
